@@ -122,7 +122,7 @@ package plugin
 //@   loop 1 invariant conn != nil && conn.Writer != nil && sr != nil && sr.r != nil && r.ui != nil && r.ui == old(r.ui)
 //@   loop 1 invariant#accepted len(stanzas) == calls("writeStanza", 5) - old(calls("writeStanza", 5))                              [C16]
 //@   loop 1 invariant#labelsonce (isnil(labels) ==> calls("writeStanza", 6) == old(calls("writeStanza", 6))) && (!isnil(labels) ==> calls("writeStanza", 6) == old(calls("writeStanza", 6)) + 1)   [C16]
-//@   loop 1 invariant#noerrack calls("writeStanza", 7) == old(calls("writeStanza", 7))                                            [C16]
+//@   loop 1 invariant#noerrack calls("writeStanza", 7) == old(calls("writeStanza", 7))                                            [C11 C16]
 //@   loop 1 invariant#answered calls("readStanza", 1) - old(calls("readStanza", 1)) == (calls("writeStanza", 5) - old(calls("writeStanza", 5))) + (calls("writeStanza", 6) - old(calls("writeStanza", 6))) + (calls("writeStanza", 8) - old(calls("writeStanza", 8))) + ($handled - old($handled))   [C16]
 //@   loop 1 invariant#phase1 calls("writeStanza", 1) == old(calls("writeStanza", 1)) + 1 && calls("writeStanza", 2) == old(calls("writeStanza", 2)) + 1 && calls("writeStanzaWithBody", 1) == old(calls("writeStanzaWithBody", 1)) + 1 && calls("writeStanza", 3) == old(calls("writeStanza", 3)) + 1 && calls("writeStanza", 4) == old(calls("writeStanza", 4)) + 1   [C16]
 //@   loop 1 decreases len(sr.r.$rem)
@@ -131,7 +131,7 @@ package plugin
 //@   ensures#nonempty err == nil ==> len(stanzas) > 0 && len(stanzas) == calls("writeStanza", 5) - old(calls("writeStanza", 5))    [C16]
 //@   ensures#phase1 err == nil ==> calls("writeStanza", 1) == old(calls("writeStanza", 1)) + 1 && calls("writeStanza", 2) == old(calls("writeStanza", 2)) + 1 && calls("writeStanzaWithBody", 1) == old(calls("writeStanzaWithBody", 1)) + 1 && calls("writeStanza", 3) == old(calls("writeStanza", 3)) + 1 && calls("writeStanza", 4) == old(calls("writeStanza", 4)) + 1   [C16]
 //@   ensures#labelsonce err == nil ==> calls("writeStanza", 6) <= old(calls("writeStanza", 6)) + 1                                 [C16]
-//@   ensures#noerrack err == nil ==> calls("writeStanza", 7) == old(calls("writeStanza", 7))                                       [C16]
+//@   ensures#noerrack err == nil ==> calls("writeStanza", 7) == old(calls("writeStanza", 7))                                       [C11 C16]
 //@   ensures#nil err != nil ==> stanzas == nil && labels == nil                                                                   [C14 C16]
 //@   ensures#oneexec $execs <= old($execs) + 1                                                                                    [C17]
 
